@@ -164,6 +164,26 @@ theorem evalConst_cast_inRange (ty : Ty) (src : Expr) (t : Typ) (r : Int)
     subst h1 h2
     exact ⟨rfl, by rw [Model.ConstFold.cast, correct_eq_wrap]; exact wrap_inRange ty _⟩
 
+/-! ### `try_eval_const` -/
+
+theorem tryEvalConst_of_ok (e : Expr) (r : Typ × Int) (h : evalConst e = .ok r) :
+    tryEvalConst e = .ok (some r) := by simp [tryEvalConst, h]
+
+theorem evalConst_of_tryEvalConst (e : Expr) (r : Typ × Int) (h : tryEvalConst e = .ok (some r)) :
+    evalConst e = .ok r := by
+  unfold tryEvalConst at h
+  split at h <;> simp at h
+  subst h; assumption
+
+/-- `try_eval_const` never lets the exceptions of an undefined operation escape -/
+theorem tryEvalConst_no_raise (e : Expr) (x : Err) (h : tryEvalConst e = .error x) :
+    x ≠ .ZeroDivisionError ∧ x ≠ .ValueError := by
+  unfold tryEvalConst at h
+  split at h <;> simp at h
+  rename_i e' h1 h2 _
+  subst h
+  exact ⟨h1, h2⟩
+
 /-! ### expression trees -/
 
 /-- the model's view of a specification tree -/
